@@ -127,6 +127,16 @@ KeyRemoveCurrent ==
   /\ In({"keys"})
   /\ Emit("key-remove-current") /\ UNCHANGED <<snaps, ver, nkeys, waste, copied>>
 
+\* `recover` builds a snapshot from the root trees no snapshot references (left by interrupted backups, forget)
+Recover ==
+  /\ In({"all"}) /\ snaps < MaxSnaps /\ waste
+  /\ Emit("recover") /\ snaps' = snaps + 1 /\ UNCHANGED <<ver, nkeys, waste, copied>>
+
+RecoverCrash ==
+  /\ In({"all"}) /\ waste
+  /\ \E k \in CrashPoints : Emit("recover!" \o N(k))
+  /\ UNCHANGED <<snaps, ver, nkeys, waste, copied>>
+
 Upgrade ==
   /\ In({"all", "upgrade"}) /\ ver = 1
   /\ Emit("upgrade") /\ ver' = 2 /\ UNCHANGED <<snaps, nkeys, waste, copied>>
@@ -136,6 +146,7 @@ Next ==
   /\ \/ Backup \/ BackupCrash \/ Forget \/ ForgetPrune \/ Prune \/ PruneCrash \/ Tag \/ TagCrash
      \/ Rewrite \/ RewriteCrash \/ Copy \/ CopyCrash \/ RepairIndex \/ RepairSnapshots
      \/ KeyAdd \/ KeyAddCrash \/ KeyPasswd \/ KeyPasswdCrash \/ KeyRemove \/ KeyRemoveCurrent \/ Upgrade
+     \/ Recover \/ RecoverCrash
 
 Spec == Init /\ [][Next]_vars
 
